@@ -31,6 +31,14 @@ class Boom(Exception):
     pass
 
 
+class BoomOS(OSError):
+    pass
+
+
+BODY_EXC = {"Boom": Boom, "RuntimeError": RuntimeError, "ValueError": ValueError, "OSError": BoomOS,
+            "ConnectionResetError": ConnectionResetError, "TimeoutError": TimeoutError, "KeyError": KeyError}
+
+
 OK_OPS = {1: ["get_state", "control_on", "get_schedules", "set_device_name"], 2: ["get_shutter_state", "set_position", "stop", "get_breeze_state"]}
 BAD_ARGS = {1: ("set_auto_shutdown", {"seconds": 60}), 2: None}
 STATE_Q = {1: "get_state", 2: "get_shutter_state"}
@@ -156,17 +164,17 @@ class Lifecycle:
                     if not await self._wait_open(self.base_open + 1):
                         self.fail("context-did-not-connect", 1, self.dev.open - self.base_open)
                     if a == "context_body_raises":
-                        raise Boom(step.get("n", 0))
+                        raise BODY_EXC[step.get("exc", "Boom")](step.get("n", 0))
                     kind = OK_OPS[self.typ][step["n"] % 4]
                     args = c03.CANON_ARGS[kind]
                     st_, res = await self._op(kind, args, ops.good_script(kind, args, "0a0b0c0d"))
                     if st_ != "ok":
                         self.fail("good-operation-fails/in-context", "a response", f"{st_}: {res!r}")
-            except Boom as b:
-                if a != "context_body_raises" or b.args != (step.get("n", 0),):
-                    self.fail("body-exception-altered", "Boom", repr(b))
             except Violation:
                 raise
+            except tuple(BODY_EXC.values()) as b:
+                if a != "context_body_raises" or type(b) is not BODY_EXC[step.get("exc", "Boom")] or b.args != (step.get("n", 0),):
+                    self.fail("body-exception-altered", step.get("exc", "Boom"), repr(b))
             except Exception as exc:
                 self.fail("context-raises", "no exception" if a == "context_ok" else "Boom", f"{type(exc).__name__}: {exc}")
             else:
@@ -263,9 +271,9 @@ def machine_factory(typ):
                 self.do({"action": "context_ok", "n": n})
 
             @precondition(lambda self: not self.sys.model_connected)
-            @rule(n=st.integers(0, 3))
-            def context_body_raises(self, n):
-                self.do({"action": "context_body_raises", "n": n})
+            @rule(n=st.integers(0, 3), exc=st.sampled_from(sorted(BODY_EXC)))
+            def context_body_raises(self, n, exc):
+                self.do({"action": "context_body_raises", "n": n, "exc": exc})
 
             def teardown(self):
                 steps = self.sys.trace
